@@ -141,6 +141,8 @@ func (r *readerRun) classify(err error) Ev {
 	switch {
 	case err == io.EOF:
 		e["cls"] = "eof"
+	case err == websocket.ErrCloseSent:
+		e["cls"] = "closesent"
 	case err == websocket.ErrReadLimit:
 		e["cls"] = "limit"
 	case err == errHandler:
@@ -814,6 +816,13 @@ func (r *readerRun) exec(sc *xport.ScriptConn, outp *[]Ev) (out []Ev) {
 				cand = r.jsonCand(v)
 			}
 			out = append(out, Ev{"e": "RJ", "ok": err == nil, "err": r.classify(err), "obs": r.takeObs(), "cand": cand})
+		case "WCL":
+			// the application sends a close frame on the connection it reads from, and keeps reading
+			err := c.WriteControl(websocket.CloseMessage, websocket.FormatCloseMessage(1000, ""), time.Now().Add(5*time.Second))
+			h := atomic.LoadInt32(&r.healed)
+			e := r.classify(err)
+			atomic.StoreInt32(&r.healed, h) // a write-side report is not the report of the read-side fault
+			out = append(out, Ev{"e": "WCL", "err": e, "obs": r.takeObs()})
 		case "SRD":
 			// SetReadDeadline is a pass-through: it must not change what the read API reports
 			err := c.SetReadDeadline(time.Time{})
